@@ -163,12 +163,13 @@ def make_callable(fid: str, fd: dict):
     pairs = ", ".join(f"{p!r}: {n}" for p, n in zip(fd["params"], names))
     sig = names + (["res"] if fd.get("rescpus") else [])
     extra = ", res" if fd.get("rescpus") else ""
-    src = (f"def {fd['name']}({', '.join(sig)}):\n"
+    pyname = fd.get("pyname") or fd["name"]      # `pyname`: several functions of a pipeline may share one Python __name__
+    src = (f"def {pyname}({', '.join(sig)}):\n"
            f"    from pfverif import build as _b\n"
            f"    return _b.invoke({fid!r}, {{{pairs}}}{extra})\n")
     ns: dict = {}
     exec(src, ns)  # noqa: S102
-    fn = ns[fd["name"]]
+    fn = ns[pyname]
     fn.__module__ = "pfverif_user"
     return fn
 
